@@ -153,6 +153,26 @@ example : (putProvList 2 [⟨1, 10, [], 5⟩, ⟨2, 20, [], 5⟩] ⟨3, 15, [], 
     (putProvList 2 [⟨1, 10, [], 5⟩, ⟨2, 20, [], 5⟩] ⟨3, 25, [], 5⟩) =
       ([⟨1, 10, [], 5⟩, ⟨2, 20, [], 5⟩], false) := by decide
 
+/-- **Only the closest are retained** (any number of announcements for one key). Folding the
+bounded `put_provider` list update over ANY sequence of announcements (new providers and
+re-announcements in any order) yields exactly the first `m` entries of the unbounded reference
+list, which is strictly sorted by distance and contains precisely the announced distances (i.e.
+providers; the latest announcement of each). Hence the retained providers are the `m` closest of
+all announced, whatever the order of announcements. -/
+theorem providers_closest (m : Nat) (anns : List Prov) :
+    anns.foldl (fun l p => (putProvList m l p).1) [] = (anns.foldl insProv []).take m ∧
+    (anns.foldl insProv []).Pairwise (fun a b => a.dist < b.dist) ∧
+    ∀ d, d ∈ (anns.foldl insProv []).map (·.dist) ↔ d ∈ anns.map (·.dist) := by
+  refine ⟨?_, foldl_insProv_sorted anns (by simp [Sorted]), ?_⟩
+  · have := foldl_putProvList_take m anns [] (by simp [Sorted])
+    simpa using this
+  · intro d
+    have := foldl_insProv_dists anns [] d
+    simpa using this
+
+example : [⟨1, 30, [], 5⟩, ⟨2, 10, [], 5⟩, ⟨3, 20, [], 5⟩, ⟨1, 30, [9], 6⟩, ⟨4, 5, [], 5⟩].foldl
+    (fun l p => (putProvList 2 l p).1) ([] : List Prov) = [⟨4, 5, [], 5⟩, ⟨2, 10, [], 5⟩] := by decide
+
 end Litep2pVerif.Props.C17
 
 open Litep2pVerif.Props.C17 in
@@ -169,3 +189,5 @@ open Litep2pVerif.Props.C17 in
 #print axioms reannounce_in_place
 open Litep2pVerif.Props.C17 in
 #print axioms providers_closest_step
+open Litep2pVerif.Props.C17 in
+#print axioms providers_closest
